@@ -30,12 +30,70 @@ def selectors_for(n):
     return [a for a in fc.ALGOS if fc.allowed(a, n)]
 
 
+def cli_cases(tier, rng):
+    """the shipped command-line program (built without the verification cfg, both profiles) as a child process:
+    argument handling, number parsing, its own size guard, the unwrap of factor()'s result, printing"""
+    yield Case("cli_build release", k=False, tag="cli", profiles=["release"], timeout=900)
+    yield Case("cli_build chk", k=False, tag="cli", profiles=["release"], timeout=900)
+    small = [0, 1, 2, 4, 97, 199 * 211, (1 << 64) - 1, (1 << 64) + 1, (1 << 128) - 1, (1 << 128) + 51,
+             1000000007 * 1000000009, gen.rand_prime(rng, 60) * gen.rand_prime(rng, 61)]
+    p500 = gen.rand_prime(rng, 500)
+    big = [(p500, "prime500"), (211 * gen.rand_prime(rng, 492), "composite500"), (gen.rand_prime(rng, 501), "501"),
+           ((1 << 511) + 1, "512"), ((1 << 512) + 1, "513"), ((1 << 1024) - 1, "1024"), (1 << 1024, "1025"), (10 ** 400, "1329")]
+    for prof in ("release", "chk"):
+        for n in small:
+            for extra in ([], ["--threads", "2"]):
+                yield Case(" ".join(["cli", prof, "60", "--verbose", "silent"] + extra + [str(n)]), k=False, tag="cli/small",
+                           profiles=["release"], timeout=90)
+        for mode in ("ecm", "qs", "mpqs", "siqs"):
+            n = gen.rand_prime(rng, 40) * gen.rand_prime(rng, 42)
+            yield Case(f"cli {prof} 60 --verbose silent --mode {mode} {n}", k=False, tag="cli/small", profiles=["release"], timeout=90)
+        for n, what in big:
+            yield Case(f"cli {prof} 120 --verbose silent {n}", k=False, tag="cli/" + what, profiles=["release"], timeout=150)
+        for junk in ("abc", "-5", "12x", "0x10", "1e5", "--mode", "--mode zzz 15", "--threads x 15", "--verbose loud 15"):
+            yield Case(f"cli {prof} 20 {junk}", k=False, tag="cli/junk", profiles=["release"], timeout=40)
+
+
+def cli_oracle(case, ans):
+    if case.op == "cli_build":
+        return None if ans == "ok" else f"the command-line program does not build: {ans}"
+    kv = dict(x.split("=", 1) for x in ans.split()) if ans.startswith("exit=") else None
+    if kv is None:
+        return f"no answer from the child process ({ans})"
+    err, code = kv["err"], kv["exit"]
+    if err.startswith("panic:") or err == "timeout" or code.startswith("sig"):
+        return f"ymqs crashed or hung: exit={code} {err}"
+    what = case.tag.split("/")[1]
+    if what == "junk":
+        # anything but a crash inside the library: refusing (non-zero exit) or printing usage is the program's choice
+        return None
+    n = int(case.args[-1])
+    if what in ("small", "prime500", "composite500"):
+        if code != "0" or err != "-":
+            return f"ymqs failed on a supported input: exit={code} err={err}"
+        if n == 1:
+            return None if kv["out"] == "-" else f"factors of 1: {kv['out']}"
+        fs = [int(x) for x in kv["out"].split(",")]
+        if fc.prod(fs) != n:
+            return f"printed factors {fs} do not multiply to n"
+        if n > 1 and what == "small" and not all(gen.is_prime(f) for f in fs):
+            return f"printed a composite factor in automatic/forced mode on a small input: {fs}"
+        return None
+    # above the supported size: a refusal (its own size message, a parse refusal above 1024 bits, or the declared failure)
+    if code == "0":
+        return f"input of {n.bit_length()} bits was processed: {kv['out'][:80]}"
+    if err not in ("refused-size", "refused-parse", "failure"):
+        return f"input of {n.bit_length()} bits: exit={code} err={err}"
+    return None
+
+
 def cases(tier, rng, extended=False):
     quick = tier == "quick"
     mult = 1 if quick else 6
     if extended:
         mult *= 4
     seen = set()
+    yield from cli_cases(tier, rng)
 
     def emit(n, algs=None, tag="", timeout=None):
         for alg in (algs or selectors_for(n)):
@@ -119,6 +177,8 @@ def cases(tier, rng, extended=False):
 
 
 def oracle(case, ans):
+    if case.op in ("cli", "cli_build"):
+        return cli_oracle(case, ans)
     kind = fc.parse_answer(ans)[0]
     if kind in ("ok", "failure"):
         if case.tag == "above-limit" and kind != "failure":
@@ -128,6 +188,8 @@ def oracle(case, ans):
 
 
 def finding_key(case, ans, profile):
+    if case.op in ("cli", "cli_build"):
+        return None
     kind = fc.parse_answer(ans)[0]
     n, alg = int(case.args[0]), case.args[1]
     if kind == "panic" and alg == "qs" and n == U8_ACC_N and profile == "chk":
@@ -137,6 +199,8 @@ def finding_key(case, ans, profile):
 
 def followup(case, ans):
     # replay also crashing runs: tells whether the model (lib.rs control flow) predicts the panic
+    if case.op in ("cli", "cli_build"):
+        return None
     kind, fs, trace, md = fc.parse_answer(ans)
     if trace is None:
         return None
@@ -147,18 +211,23 @@ def followup(case, ans):
 
 
 def klass(case, ans):
+    if case.op in ("cli", "cli_build"):
+        return f"{case.tag}/{case.args[0]}/{ans.split(' err=')[-1] if ' err=' in ans else ans}"
     return f"{case.args[1]}/{case.tag}/{fc.parse_answer(ans)[0]}"
 
 
 def nontrivial(case, ans):
+    if case.op in ("cli", "cli_build"):
+        return case.op == "cli"
     return int(case.args[0]) > 3
 
 
 CLAIM = ("Lean theorem: under the sub-algorithm contracts and the selector size preconditions the modelled control flow of factor() never "
-         "reaches an assertion, unreachable!() or division by zero and never recurses without decrease (fuel bound), except the Rho "
-         "selector's fall-through when rho fails (model-level counter-witness proved; full statement kept as _partial). Crashes inside "
+         "reaches an assertion, unreachable!() or division by zero and never recurses without decrease (fuel bound), for all ten selectors "
+         "(the Rho selector's fall-through into unreachable!() was a real panic, repaired in 21688e6). Crashes inside "
          "sub-algorithms, stack exhaustion and hangs cannot be exhibited by the model: they are explored by running the real entry point "
-         "in both build profiles under catch_unwind and a watchdog on boundary inputs. PARTIAL.")
+         "in both build profiles under catch_unwind and a watchdog on boundary inputs, and the shipped command-line program ymqs as a "
+         "child process (argument handling, parsing, its size guard, exit status). PARTIAL.")
 LEVEL_NOTE = ("Trusted: Lean kernel (+3 standard axioms); trace-replay correspondence; the exploration half is testing, labelled as such. "
               "Recorded crashes are listed in known_findings.json by selector and input class.")
 TECHNIQUE = "Lean 4 proof of unreachability of modelled panic sites + both-profile exploration with watchdog"
